@@ -2,7 +2,8 @@ import Model.Basic
 /-!
 # The DAG task runner (dag/dag.go)
 
-* graph construction (`AddTask`, `TaskDependsOn`, `TaskRetries`) as a fold over the call history;
+* graph construction (`AddTask`, `TaskDependsOn`, `TaskRetries`, with `*Task` arguments given directly, looked
+  up by `g.Task(id)` or taken from a `TaskMap`; `TaskMap.Add/Get`, `Validate`) as a fold over the call history;
 * `DepthFirstSort` / `visit` (fuel-structural, children loop as a fold);
 * `Graph.Run` as a labelled transition system: `step? cfg s ev` is deterministic given the event, so it
   is both the semantics the theorems are about and the acceptor that replays traces of the real
@@ -16,20 +17,30 @@ namespace GoModel.Dag
 
 /-! ## Construction -/
 
-/-- a `*Task` argument: `none` = nil pointer; id 0 = empty ID; `hasFn = false` = nil function -/
+/-- where a `*Task` argument comes from: written by the caller, `g.Task(id)`, or `tm.Get(id)` -/
+inductive Src | direct | graph | tmap
+deriving DecidableEq, Repr, Inhabited
+
+/-- a `*Task` argument: `none` = nil pointer; id 0 = empty ID; `hasFn = false` = nil function.  With
+`src = graph` / `tmap` the argument is the expression `g.Task(id)` / `tm.Get(id)`, evaluated when the
+call is made (`hasFn` is then ignored: the looked-up task decides). -/
 structure TaskRef where
   id : Nat
   hasFn : Bool := true
+  src : Src := .direct
 deriving DecidableEq, Repr, Inhabited
 
 inductive GOp
   | addTask (t : Option TaskRef)
   | dependsOn (t : Option TaskRef) (deps : List (Option TaskRef))
   | retries (t : Option TaskRef) (n : Int)
+  | lookup (t : Option TaskRef)            -- a `g.Task(id)` / `tm.Get(id)` call whose result is dropped
+  | tmAdd (id : Nat) (hasFn : Bool)        -- `tm.Add(id, fn)`
 deriving DecidableEq, Repr, Inhabited
 
 inductive BuildErr
   | taskNil | taskID | taskFn (id : Nat) | depDuplicate (a c : Nat)
+  | taskNotFound (id : Nat) | taskDuplicate (id : Nat)
 deriving DecidableEq, Repr, Inhabited
 
 structure Vertex where
@@ -42,6 +53,8 @@ deriving DecidableEq, Repr, Inhabited
 structure GState where
   verts : List Vertex := []          -- `g.Vertices`, in insertion order (map order is arbitrary)
   errs : List BuildErr := []
+  tm : List (Nat × Bool) := []       -- the `TaskMap`: id ↦ "the task has a function" (last `Add` first)
+  tmErrs : List BuildErr := []       -- errors collected by the `TaskMap`
 deriving DecidableEq, Repr, Inhabited
 
 def GState.find (g : GState) (id : Nat) : Option Vertex := g.verts.find? (·.id == id)
@@ -83,8 +96,43 @@ def addDeps (g : GState) (v : Nat) : List (Option TaskRef) → GState
         let g3 := g2.modify c fun x => { x with parents := x.parents ++ [v] }
         addDeps g3 v ds
 
-def buildStep (g : GState) (op : GOp) : GState :=
+/-- `tm.Add(id, fn)`: the three checks each record their error, then the task is stored anyway -/
+def tmAdd (g : GState) (id : Nat) (hasFn : Bool) : GState :=
+  let e1 := if id == 0 then [BuildErr.taskID] else []
+  let e2 := if !hasFn then [BuildErr.taskFn id] else []
+  let e3 := if g.tm.any (·.1 == id) then [BuildErr.taskDuplicate id] else []
+  { g with tm := (id, hasFn) :: g.tm.filter (·.1 != id), tmErrs := g.tmErrs ++ e1 ++ e2 ++ e3 }
+
+/-- one `*Task` argument evaluated: `g.Task(id)` returns the registered task (which has a function, `addTask`
+admits no other) or records `ErrorTaskNotFound` in the graph and returns an empty task; `tm.Get(id)` does
+the same against the `TaskMap`. -/
+def evalRef (g : GState) (t : Option TaskRef) : GState × Option TaskRef :=
+  match t with
+  | none => (g, none)
+  | some t =>
+    match t.src with
+    | .direct => (g, some t)
+    | .graph =>
+      if g.has t.id then (g, some { id := t.id, hasFn := true })
+      else ({ g with errs := g.errs ++ [.taskNotFound t.id] }, some { id := t.id, hasFn := false })
+    | .tmap =>
+      match g.tm.find? (·.1 == t.id) with
+      | some (_, f) => (g, some { id := t.id, hasFn := f })
+      | none => ({ g with tmErrs := g.tmErrs ++ [.taskNotFound t.id] }, some { id := t.id, hasFn := false })
+
+/-- the arguments of one call, left to right (Go evaluates them all before the call) -/
+def evalRefs (g : GState) : List (Option TaskRef) → GState × List (Option TaskRef)
+  | [] => (g, [])
+  | t :: ts =>
+    let (g1, t') := evalRef g t
+    let (g2, ts') := evalRefs g1 ts
+    (g2, t' :: ts')
+
+/-- the call itself, its arguments already evaluated -/
+def buildCore (g : GState) (op : GOp) : GState :=
   match op with
+  | .lookup _ => g
+  | .tmAdd id f => tmAdd g id f
   | .addTask t =>
     match addTask g t with
     | .ok g' => g'
@@ -98,6 +146,21 @@ def buildStep (g : GState) (op : GOp) : GState :=
     | .error e => { g with errs := g.errs ++ [e] }
     -- `TaskRetries`: a negative number means no retries (the task still runs once)
     | .ok (g1, v) => g1.modify v fun x => { x with retries := if n < 0 then 0 else n }
+
+def buildStep (g : GState) (op : GOp) : GState :=
+  match op with
+  | .addTask t => let (g1, t') := evalRef g t; buildCore g1 (.addTask t')
+  | .dependsOn t deps =>
+    let (g1, t') := evalRef g t
+    let (g2, deps') := evalRefs g1 deps
+    buildCore g2 (.dependsOn t' deps')
+  | .retries t n => let (g1, t') := evalRef g t; buildCore g1 (.retries t' n)
+  | .lookup t => (evalRef g t).1
+  | .tmAdd id f => buildCore g (.tmAdd id f)
+
+/-- `g.Validate(tm)`: the `TaskMap`'s errors if it has any, else the graph's -/
+def validate (g : GState) (withTM : Bool) : List BuildErr :=
+  if withTM && !g.tmErrs.isEmpty then g.tmErrs else g.errs
 
 def buildGraph (ops : List GOp) : GState := ops.foldl buildStep {}
 
@@ -321,6 +384,8 @@ def parseRef (s : String) : Option (Option TaskRef) :=
   if s == "nil" then some none
   else match s.splitOn ":" with
     | [i, f] => i.toNat?.map fun n => some { id := n, hasFn := f == "1" }
+    | [i, f, "g"] => i.toNat?.map fun n => some { id := n, hasFn := f == "1", src := .graph }
+    | [i, f, "m"] => i.toNat?.map fun n => some { id := n, hasFn := f == "1", src := .tmap }
     | _ => none
 
 def parseRes : String → Option Res
@@ -350,6 +415,8 @@ def entryStr : Entry → String
 def buildErrStr : BuildErr → String
   | .taskNil => "nil" | .taskID => "id" | .taskFn i => "fn:" ++ toString i
   | .depDuplicate a c => "dup:" ++ toString a ++ ":" ++ toString c
+  | .taskNotFound i => "notfound:" ++ toString i
+  | .taskDuplicate i => "tmdup:" ++ toString i
 
 def vertexStr (v : Vertex) : String :=
   toString v.id ++ "[" ++ ",".intercalate (v.children.map toString) ++ "|" ++
@@ -380,6 +447,15 @@ def handle (d : DriverState) (ws : List String) : DriverState × Option String :
   | ["retries", t, n] => match parseRef t, n.toInt? with
     | some t, some n => ({ d with ops := d.ops ++ [.retries t n] }, none)
     | _, _ => (d, some "bad-op")
+  | ["lookup", t] => match parseRef t with
+    | some t => ({ d with ops := d.ops ++ [.lookup t] }, none)
+    | none => (d, some "bad-op")
+  | ["tmadd", t] => match parseRef t with
+    | some (some t) => ({ d with ops := d.ops ++ [.tmAdd t.id t.hasFn] }, none)
+    | _ => (d, some "bad-op")
+  | ["validate", w] =>
+    let g := buildGraph d.ops
+    (d, some ("V errs=" ++ ";".intercalate ((validate g (w == "1")).map buildErrStr)))
   | ["serial"] => ({ d with serial := true }, none)
   | ["max", n] => match n.toNat? with
     | some n => ({ d with maxParallel := if n > 0 then n else d.maxParallel }, none)
